@@ -36,7 +36,7 @@ func Load(repoDir, externDir string, patterns []string) (*Engine, error) {
 	t0 := time.Now()
 	os.Setenv("PATH", "/opt/veriftools/go1.26.8/bin:"+os.Getenv("PATH"))
 	cfg := &packages.Config{
-		Mode:       packages.LoadAllSyntax,
+		Mode:       packages.LoadAllSyntax | packages.NeedModule,
 		Dir:        repoDir,
 		BuildFlags: []string{"-tags=verif"},
 		Env:        append(os.Environ(), "PATH=/opt/veriftools/go1.26.8/bin:"+os.Getenv("PATH"), "GOFLAGS=-mod=mod", "GOPROXY=off", "GOSUMDB=off", "GOTOOLCHAIN=local"),
@@ -78,6 +78,31 @@ func Load(repoDir, externDir string, patterns []string) (*Engine, error) {
 			continue
 		}
 		e.index(fn)
+	}
+	// methods of all named types of the repository packages
+	for _, sp := range prog.AllPackages() {
+		if e.ModPath == "" || !strings.HasPrefix(sp.Pkg.Path(), e.ModPath) {
+			continue
+		}
+		for _, mem := range sp.Members {
+			tn, ok := mem.(*ssa.Type)
+			if !ok {
+				continue
+			}
+			if named, ok := tn.Type().(*types.Named); ok && named.TypeParams().Len() > 0 {
+				continue
+			}
+			for _, t := range []types.Type{tn.Type(), types.NewPointer(tn.Type())} {
+				ms := prog.MethodSets.MethodSet(t)
+				for i := 0; i < ms.Len(); i++ {
+					if fn := prog.MethodValue(ms.At(i)); fn != nil && fn.Synthetic == "" {
+						if _, dup := e.Funcs["::"+fn.String()]; !dup {
+							e.index(fn)
+						}
+					}
+				}
+			}
+		}
 	}
 	// contracts from the tagged comment-only files
 	for _, p := range pkgs {
